@@ -574,3 +574,24 @@ func ChanOps(p *Prog) []ChanOp {
 	}
 	return out
 }
+
+
+// DerefSource returns the pointer p when v is `*p` - a load, or the result of an accessor of the repository that returns
+// the value its receiver points to (`func (s *S) items() []T { return *s }`); nil otherwise.
+func DerefSource(v ssa.Value) ssa.Value {
+	v = Unwrap(v)
+	switch x := v.(type) {
+	case *ssa.UnOp:
+		if x.Op == token.MUL {
+			return x.X
+		}
+	case *ssa.Call:
+		g := Callee(&x.Call)
+		if r := ThinReturn(g); r != nil && len(x.Call.Args) > 0 {
+			if u, ok := Unwrap(r).(*ssa.UnOp); ok && u.Op == token.MUL && u.X == ssa.Value(g.Params[0]) {
+				return x.Call.Args[0]
+			}
+		}
+	}
+	return nil
+}
